@@ -15,6 +15,7 @@ import (
 
 	"verifharness/dev"
 	"verifharness/hx"
+	"verifharness/indep"
 	"verifharness/mk"
 )
 
@@ -187,7 +188,11 @@ func execC07(ci any) (r hx.Result) {
 			}
 			prev = tb.v
 		}
-		// (1) round trip through the library's reader
+		// (1a) round trip through the harness's own squashfs reader (shares no code with the library)
+		if sqIndepCompare(&r, label, d, c, want) {
+			return
+		}
+		// (1b) round trip through the library's reader
 		got := map[string]*seenNode{}
 		fin = hx.WithTimeout(6*watchdog(), func() {
 			if p, pv, stk := hx.Safe(func() {
@@ -288,6 +293,71 @@ func execC07(ci any) (r hx.Result) {
 		}
 	}
 	return
+}
+
+// sqIndepCompare parses the finalized image with the independent reader and compares it with the source tree.
+// It returns true when a violation was recorded.
+func sqIndepCompare(r *hx.Result, label string, d *dev.Device, c sqCase, want map[string]mk.Entry) bool {
+	var img *indep.SqImage
+	var err error
+	fin := hx.WithTimeout(6*watchdog(), func() {
+		if p, pv, stk := hx.Safe(func() { img, err = indep.ReadSquashfs(d, c.Start, c.Size) }); p {
+			err = fmt.Errorf("independent reader panicked: %v [%s]", pv, stk)
+		}
+	})
+	if !fin {
+		r.Fail("indep-hang", "%s: the independent squashfs reader did not finish", label)
+		return true
+	}
+	if err != nil {
+		r.Fail("indep-read", "%s: the image cannot be read by an independent squashfs reader: %v", label, err)
+		return true
+	}
+	if img.LZ4Frames > 0 {
+		r.Note("lz4 blocks are stored as lz4 frames, not as raw lz4 blocks as mksquashfs writes them (interoperability, outside the statement)")
+	}
+	var missing, extra []string
+	for p := range want {
+		if img.Nodes[p] == nil {
+			missing = append(missing, p)
+		}
+	}
+	for p := range img.Nodes {
+		if _, ok := want[p]; !ok && p != "." {
+			extra = append(extra, p)
+		}
+	}
+	sort.Strings(missing)
+	sort.Strings(extra)
+	if len(missing)+len(extra) > 0 {
+		r.Fail("indep-tree", "%s: the tree an independent reader finds in the image differs from the source: missing %s, unexpected %s", label, shortList(missing), shortList(extra))
+		return true
+	}
+	if int(img.Inodes) != len(img.Nodes) {
+		r.Fail("sb-inodes", "%s: superblock inode count %d, the image holds %d inodes", label, img.Inodes, len(img.Nodes))
+		return true
+	}
+	for p, e := range want {
+		g := img.Nodes[p]
+		wantKind := map[int]byte{mk.KDir: 'd', mk.KLink: 'l', mk.KFile: 'f'}[e.Kind]
+		if g.Kind != wantKind {
+			r.Fail("indep-kind", "%s: %q is kind %c in the image (independent reader), %c in the source", label, clip(p), g.Kind, wantKind)
+			return true
+		}
+		switch e.Kind {
+		case mk.KLink:
+			if g.Target != e.Target {
+				r.Fail("indep-symlink", "%s: %q: link target %q in the image (independent reader), source %q", label, clip(p), clip(g.Target), clip(e.Target))
+				return true
+			}
+		case mk.KFile:
+			if wd := e.Data.Bytes(); !bytes.Equal(g.Data, wd) {
+				r.Fail("indep-content", "%s: %q (%d bytes, style %d): content in the image (independent reader) differs (%s)", label, clip(p), e.Data.Len, e.Data.Style, diffAt(g.Data, wd))
+				return true
+			}
+		}
+	}
+	return false
 }
 
 func roundCache(c int) int {
